@@ -59,6 +59,11 @@ CHECKS = {
    text="The complete table 256 control bytes x 19 destination addresses x 7 source addresses x role x self-address feature x {fresh, after link reset} x 2 passes (440k frames) is run through link::layer::Layer and compared with a transcription of the statement (accepted, reply function/addresses, delivery, FCB toggling); generated RESET/CONFIRMED_USER_DATA sequences check the frame-count-bit rule; generated session cases send valid and invalid fragments from the configured master, a foreign master and the three broadcast addresses in idle and confirm-wait states with the any-master/broadcast features on and off: nothing may be transmitted in reaction to a broadcast, nothing but link-layer traffic and no callback for a foreign master.",
    note="Frames with malformed flag combinations and secondary frames are only required not to be acted on when not addressed to the endpoint. A REQUEST_LINK_STATUS to a broadcast address is required NOT to be answered.",
    design="DESIGN.md §5 C07"),
+ "C09": dict(
+   technique="property-based testing / grammar-based fuzz-style generation: accept=>exact differential against an independent header walker, byte-for-byte differential of every request builder against reference encoders, writer output re-parsed",
+   text="(1) accept_exact: fragments from a grammar over the reference size table (every function code, every group/variation x 8 qualifiers, boundary counts and ranges incl. ranges ending at 255/65535, octet strings, attributes, free format), half of them with layout-suited qualifiers so that they are accepted, then truncated/extended/bit-flipped; whenever the library accepts the object part, a generated visitor (one arm per variant of the library's header enums) iterates every header: second pass == first, declared count/indices == yielded, Display shows as many objects, every object re-encodes with the library's own write() to the wire octets, and the independent walker must consume exactly the same octets into the same headers, indices and object octets. (2) requests: descriptions of ReadRequest (all shapes), Headers (incl. time-and-interval, attribute writes), CommandBuilder (5 control types x 8/16-bit indices x several headers), dead-band writes and file objects g70v2/3/4/5/7 are encoded by the library builders and by reference encoders - octets must be identical - then parsed. (3) writers: every response/unsolicited fragment of the static and event writers (C10 generator) must parse, agree with the walker and decode to the described points.",
+   note="One-directional on purpose (accept => exact); the walker abstains on combinations the standard leaves undefined, unknown objects and attribute TLVs. Requests the builders can be made to emit from nonsensical user input (e.g. a range READ of an event group) are only required to parse when the combination is certainly defined. Responses written by the session (control echoes, delay/restart responses) are parsed by C12's checks, not here. A one-byte object count beyond 255 objects per header is outside the generated domain.",
+   design="DESIGN.md §5 C09"),
  "C10": dict(
    technique="property-based testing: database -> response/unsolicited writer -> library parser -> measurement extraction, compared with a statement-derived 'what this variation can carry' reference",
    text="Generated databases (8 point types, every configurable static and event variation, indices incl. 0/255/256/65535), update sequences (analog values at the i16/i32/binary32 limits, fractions, NaN, infinities, subnormals; counters around 2^16 and 2^32; every flag octet; 48-bit times, synchronized and not, with gaps around 65535 ms and decreasing; Detect/Force/Suppress; update_static on/off) are read by class 0, event classes, type and variation (all, ranges, count-limited) or reported through write_unsolicited into 249..2048-byte fragments; each fragment passes ParsedFragment::parse and extract_measurements_inner into a recording ReadHandler. Every delivered (index, value, flags, time) is compared with carry(variation, record) written from the statement (saturation + OVER_RANGE, low 16 bits of counters, ONLINE for flag-less variations, packed only for plainly ONLINE points, no time / absolute time / exactly reconstructed relative time); every selected point arrives once per selecting header in an admissible variation, every selected event once, in order, for its own point and type.",
